@@ -13,10 +13,12 @@ R2 the only repo-owned chunk hand-over, the TCP reader loop, passes every non-em
 R3 handle_line does the same thing in both flavours: per family the sync and the asyncio protocol
    class resolve to the same function, or their abstract paths agree; every job it creates is
    (gateway.logic, (line,)) with the line unchanged, at most one per line.
-R4 deferred and inline execution agree: the threaded add_job only appends the (func, args) pair;
-   the pump runs each popped job exactly once and hands exactly its result to transport.send
-   before popping the next one (FIFO by C16-R4); the asyncio add_job runs exactly that job once
-   and hands exactly its result to transport.send.
+R4 deferred and inline execution agree: the threaded add_job appends the (func, args) pair when it
+   is called from another thread and - like the asyncio add_job always does - runs the job at once
+   and sends exactly its reply when a running job calls it (D16: deferring such a job put what a
+   line triggers behind the lines already queued); the pump runs each popped job exactly once and
+   hands exactly its result to transport.send before popping the next one (FIFO by C16-R4); a line
+   that adds jobs has no reply of its own; a deferred job owns its message.
 R5 MQTT: both flavours share one recv function, which enqueues logic with the mapped command.
 """
 from __future__ import annotations
